@@ -25,7 +25,7 @@ def resubdivide(rng, cells):
 def run(run):
     rng = run.rng
     run.do_ties()
-    quick = run.tier == "quick"
+    quick = run.quick
     sets = []
     sets.append(("corpus-F3", spec.children(spec.encode(0, 0, ())) + [spec.encode(0, f, ()) for f in range(1, 12)]))
     sets.append(("whole-sphere-r2", [c for c in gen.all_cells(2)]))
